@@ -487,6 +487,11 @@ def Res.isOk : Res → Bool
   | .states (.ok _) | .restored (.ok _) => true
   | _ => false
 
+/-- Environment of the request: the Lightning backend fails its next `InvoiceStatus` call (one-shot; the
+    flag is dropped at the end of the operation by `Sess.runPM`). -/
+def armLn (m : Sess) (lnFail : Bool) : Sess :=
+  if lnFail then { m with w := { m.w with ln := { m.w.ln with failInvoiceStatus := 1 } } } else m
+
 /-- Run the handler's operation on the mint session. -/
 def execOp (p : Parsed) (op : Op) (m : Sess) : Sess × Except E Json :=
   ((applyOp m op).1, resTree p (applyOp m op).2)
@@ -527,7 +532,7 @@ def runHandler (s : WSess) (h : Handler) (p : Parsed) (op : Op) (r : Request) : 
     match s.cache.get r.key s.now with
     | (c1, some bytes) => ({ s with cache := c1 }, ⟨200, bytes⟩, .hit r.key)
     | (c1, none) =>
-      match execOp p op s.mint with
+      match execOp p op (armLn s.mint r.lnFail) with
       | (m1, .error e) => ({ s with mint := m1, cache := c1 }, errResp (mapErr h e), .executed h op false)
       | (m1, .ok t) =>
         if r.bodyLen < bodyLimit then
@@ -535,7 +540,7 @@ def runHandler (s : WSess) (h : Handler) (p : Parsed) (op : Op) (r : Request) : 
             .executed h op (decide (c1.length ≤ cacheLimit)))
         else ({ s with mint := m1, cache := c1 }, ok200 t, .executed h op false)
   else
-    match execOp p op s.mint with
+    match execOp p op (armLn s.mint r.lnFail) with
     | (m1, .error e) => ({ s with mint := m1 }, errResp (mapErr h e), .executed h op false)
     | (m1, .ok t) => ({ s with mint := m1 }, ok200 t, .executed h op false)
 
